@@ -281,4 +281,21 @@ pub mod harnesses {
       _ => { kani::cover!(if0 & ie0 != 0 && ime_sel == 0, "reachable: dispatch"); kani::cover!(if0 & ie0 == 0, "reachable: nothing pending"); },
     }
   }
+
+  // ------------------------------------------------------------------ C20: command lines (BOUNDED by input length)
+  const NLINE: usize = 4;
+  /// totality: parse_command returns (Some or None) for every UTF-8 line of at most NLINE bytes - no panic, no unchecked slice out of bounds
+  #[kani::proof] #[kani::unwind(8)]
+  fn strs_parse_command_total() {
+    let bytes: [u8; NLINE] = kani::any();
+    let len: usize = kani::any();
+    kani::assume(len <= NLINE);
+    let s = match core::str::from_utf8(&bytes[..len]) { Ok(s) => s, Err(_) => return };
+    let r = crate::debug::command::parse_command(s);
+    // command words are recognised regardless of letter case / surrounding whitespace (checked on the one-letter commands that fit the bound)
+    if len >= 1 && (bytes[0] == b'c' || bytes[0] == b'C') && (len == 1 || bytes[1] == b' ') && (len <= 2 || bytes[2] == b' ') && (len <= 3 || bytes[3] == b' ') {
+      assert!(r == Some(crate::debug::command::Command::Continue), "C20: `c` / `C` with surrounding whitespace is Continue");
+    }
+    kani::cover!(r.is_some(), "reachable: some line parses");
+  }
 }
